@@ -51,6 +51,7 @@ func defaultConfig() sym.Config {
 		InstrBudget:     20_000_000,
 		KeyEnumLimit:    24,
 		MaxFanout:       4096,
+		MaxDecisions:    4000,
 		Workers:         16,
 		SolverTimeoutMs: 30000,
 		ModulePath:      modulePath,
